@@ -3,7 +3,13 @@
 import json, os, glob, re
 ROOT = os.path.dirname(os.path.dirname(os.path.abspath(__file__)))
 rows = []
-for d in sorted(glob.glob(os.path.join(ROOT, 'seeded', '*'))):
+def natkey(d):
+    b = os.path.basename(d)
+    a, k = b.split('-')
+    return (a, int(k))
+
+
+for d in sorted(glob.glob(os.path.join(ROOT, 'seeded', '*')), key=natkey):
     m = json.load(open(os.path.join(d, 'meta.json')))
     title = ''
     rp = os.path.join(d, 'README.md')
@@ -14,6 +20,11 @@ for d in sorted(glob.glob(os.path.join(ROOT, 'seeded', '*'))):
                 title = re.sub(r'^#+\s*', '', l)
                 title = re.sub(r'^(Seed(ed)?( change)?\s*\d*\s*[-—:(]*\s*)', '', title, flags=re.I).strip(' )')
                 break
+        if not title:
+            # short READMEs without a heading (round 4): the line that names the mutation, else the first line
+            lines = [l.strip() for l in open(rp, encoding='utf-8') if l.strip()]
+            cand = [l for l in lines if re.search(r'mutation|->|becomes|instead of', l, re.I)]
+            title = re.sub(r'[*`_]', '', (cand or lines or [''])[0]).lstrip('-# ').strip()
     det = []
     for p, r in sorted(m.get('detected_by', {}).items()):
         if r['exit'] == 1:
